@@ -235,16 +235,13 @@ pub struct Run<'a> {
 	pub stats: Stats,
 	pub tags: Vec<&'static str>,
 	pub unfinished: bool,
-	/// development aid (env C07_TOLERATE=prefix,prefix): failures of the broadcast-validity oracle whose key
-	/// starts with one of these are recorded as labels instead of ending the case
-	tolerate: Vec<String>,
-	pub tolerated: BTreeSet<String>,
 	/// keys listed as known findings: the first such failure is remembered and reported at the END of the case
 	/// (the runner then counts the case as excluded_known), so that every other oracle is still evaluated on
 	/// the rest of the case — the search continues behind a known finding
 	known: Vec<String>,
 	pub known_hit: Option<Failure>,
 	blocks_since_close: u32,
+	saw_channel_closed: bool,
 }
 
 pub fn cold_script(node: usize) -> ScriptBuf {
@@ -292,11 +289,10 @@ impl<'a> Run<'a> {
 			stats: Stats::default(),
 			tags: vec![],
 			unfinished: false,
-			tolerate: std::env::var("C07_TOLERATE").ok().map(|s| s.split(',').filter(|x| !x.is_empty()).map(|x| x.to_string()).collect()).unwrap_or_default(),
-			tolerated: BTreeSet::new(),
 			known: vcore::load_known_findings("C07").into_iter().filter(|k| k.status == "known").map(|k| k.key).collect(),
 			known_hit: None,
 			blocks_since_close: 0,
+			saw_channel_closed: false,
 		};
 		// broadcasts during channel establishment are not part of the case
 		r.cur_log = r.sim.log.len();
@@ -412,6 +408,7 @@ impl<'a> Run<'a> {
 					self.bump_targets.insert(id, (target, ops));
 					pending_bumps.push((node, b));
 				},
+				SEvent::Ldk { ev: Event::ChannelClosed { .. }, .. } => self.saw_channel_closed = true,
 				SEvent::Ldk { node, ev: Event::SpendableOutputs { outputs, channel_id, .. } } => {
 					let chan = channel_id.and_then(|id| self.sim.chans.iter().position(|c| c.id == id));
 					let height = self.sim.chain.height();
@@ -974,17 +971,13 @@ impl<'a> Run<'a> {
 		}
 	}
 
-	/// development aid, see `tolerate`
+	/// failures listed as known findings do not end the case, see `known`
 	fn soft(&mut self, r: CaseResult) -> CaseResult {
 		match r {
 			Err(f) if self.known.iter().any(|k| *k == f.key) => {
 				if self.known_hit.is_none() {
 					self.known_hit = Some(f);
 				}
-				Ok(())
-			},
-			Err(f) if self.tolerate.iter().any(|t| f.key.starts_with(t.as_str())) => {
-				self.tolerated.insert(f.key.clone());
 				Ok(())
 			},
 			other => other,
@@ -1227,7 +1220,17 @@ impl<'a> Run<'a> {
 			for h in cl.htlcs.iter() {
 				let op = OutPoint { txid: cl.txid, vout: h.vout };
 				let Some((stx, x, by)) = self.spender(&op) else {
-					return Err(fail("htlc-output-unclaimed", format!("chan {}: HTLC output {} ({} sat, expiry {}) was never claimed by anyone", cl.chan, op, h.sat(), h.cltv)));
+					// whoever could claim it (the offerer after expiry at the latest) did not
+					let refused = self.last_refused_spend(h.offerer, &op);
+					let why = match &refused {
+						Some((_, Reject::AlreadySpent(o, _))) if *o != op => "claim-aggregated-with-spent-output".to_string(),
+						Some((_, r)) => format!("claim-refused-{}", reject_kind(r)),
+						None => "no-claim".to_string(),
+					};
+					let f = fail("htlc-output-unclaimed", format!("chan {}: HTLC output {} ({} sat, expiry {}, offered by node {}) was never claimed by anyone (last refused attempt of the offerer: {:?})", cl.chan, op, h.sat(), h.cltv, h.offerer, refused))
+						.with_key(format!("htlc-output-unclaimed/{}/{}", if h.offerer == cl.b { "holder" } else { "counterparty" }, why));
+					self.soft(Err(f))?;
+					continue;
 				};
 				let Some(by) = by else { continue };
 				let known_at = self.preimage_known.get(&(h.receiver, cl.chan, h.hash)).cloned();
@@ -1298,6 +1301,9 @@ impl<'a> Run<'a> {
 					} else if self.prevout(&op).map(|o| (0..self.n()).any(|i| cold_script(i) == o.script_pubkey)).unwrap_or(false) {
 						let i = (0..self.n()).find(|i| cold_script(*i) == self.prevout(&op).unwrap().script_pubkey).unwrap();
 						to_node[i] += val;
+					} else if self.known_hit.is_some() && op.txid == cl.txid && cl.htlcs.iter().any(|h| h.vout == op.vout) {
+						// already reported above as htlc-output-unclaimed (a known finding): its value stays on chain
+						unswept_anchors += val;
 					} else {
 						return Err(fail("output-left-unclaimed", format!("chan {}: output {} ({} sat) descending from the closed channel is neither spent, nor swept, nor an anchor at the end of the case (announced: {:?})", cl.chan, op, val, self.announced.get(&op))));
 					}
@@ -1413,9 +1419,7 @@ impl<'a> Run<'a> {
 		ctx.label_if(st.htlc_won_by_timeout > 0, "htlc-resolved-by-timeout");
 		ctx.label_if(st.sweeps_dust_only > 0, "sweep-all-to-fee");
 		ctx.label(if self.unfinished { "unfinished" } else { "finished" });
-		for t in self.tolerated.iter() {
-			ctx.label(&format!("tolerated:{}", t));
-		}
+
 	}
 
 	pub fn nontrivial(&self) -> bool {
@@ -1511,14 +1515,11 @@ pub fn run_case(case: &Case, ctx: &mut Ctx, tail_blocks: u32) -> CaseResult {
 	run_inner(&mut r, ctx, tail_blocks)
 }
 
-fn run_inner(r: &mut Run, ctx: &mut Ctx, tail_blocks: u32) -> CaseResult {
+
+fn traffic_and_close(r: &mut Run) -> CaseResult {
 	let spec = r.case.spec.clone();
 	r.observe()?;
 	for op in r.case.ops.iter() {
-		// A panic inside channel operation while every channel is still open (e.g. the `list_channels`
-		// debug assertion "some channel balance has been overdrawn") is the verdict of the channel-state
-		// properties (C01), not of the on-chain claim machinery: labelled and the case is given up.
-		let open_before = r.closed.is_empty() && r.sim.chans.iter().enumerate().all(|(i, c)| r.sim.chan_details(c.a, i).is_some() && r.sim.chan_details(c.b, i).is_some());
 		if let Op::Mine { blocks, include, pick: p } = op {
 			// same semantics as `ops::apply`, but block by block
 			let mut txs: Vec<Transaction> = r.sim.chain.mempool.clone();
@@ -1542,27 +1543,34 @@ fn run_inner(r: &mut Run, ctx: &mut Ctx, tail_blocks: u32) -> CaseResult {
 			r.tags.push("mine");
 			continue;
 		}
-		let res = std::panic::catch_unwind(std::panic::AssertUnwindSafe(|| apply(&mut r.sim, &spec, op)));
-		let tag = match res {
-			Ok(t) => t,
-			Err(p) => {
-				let lp = vcore::take_last_panic();
-				let loc = lp.as_ref().map(|(_, l)| l.clone()).unwrap_or_default();
-				if open_before && (loc.contains("/ln/channel_state.rs") || loc.contains("/ln/channel.rs") || loc.contains("/ln/channelmanager.rs")) {
-					ctx.label(&format!("foreign-failure:C01:panic@{}", loc.rsplit("/lightning/src/").next().unwrap_or(&loc)));
-					return Ok(());
-				}
-				vcore::set_last_panic(lp);
-				std::panic::resume_unwind(p);
-			},
-		};
+		let tag = apply(&mut r.sim, &spec, op);
 		r.tags.push(tag);
 		r.observe()?;
 	}
-	if !r.closed.is_empty() || r.sim.chans.iter().enumerate().any(|(i, c)| r.sim.chan_details(c.a, i).is_none() || r.sim.chan_details(c.b, i).is_none()) {
+	if !r.closed.is_empty() || r.saw_channel_closed {
 		r.stats.closed_automatically = true;
 	}
-	r.close()?;
+	r.close()
+}
+
+fn run_inner(r: &mut Run, ctx: &mut Ctx, tail_blocks: u32) -> CaseResult {
+	// A panic inside channel operation while every channel is still open (seen: the `list_channels` debug
+	// assertion "some channel balance has been overdrawn") is the verdict of the channel-state properties
+	// (C01), not of the on-chain claim machinery: it is labelled and the case is given up.
+	let traffic = std::panic::catch_unwind(std::panic::AssertUnwindSafe(|| traffic_and_close(r)));
+	match traffic {
+		Ok(res) => res?,
+		Err(p) => {
+			let lp = vcore::take_last_panic();
+			let loc = lp.as_ref().map(|(_, l)| l.clone()).unwrap_or_default();
+			if !r.saw_channel_closed && r.closed.is_empty() && (loc.contains("/ln/channel_state.rs") || loc.contains("/ln/channel.rs") || loc.contains("/ln/channelmanager.rs")) {
+				ctx.label(&format!("foreign-failure:C01:panic@{}", loc.rsplit("/lightning/src/").next().unwrap_or(&loc)));
+				return Ok(());
+			}
+			vcore::set_last_panic(lp);
+			std::panic::resume_unwind(p);
+		},
+	}
 	for st in r.case.steps.iter() {
 		if let Some(off) = st.advance {
 			r.advance(off)?;
